@@ -81,7 +81,8 @@ def step(x, kind, P, k):
     raise ValueError(kind)
 
 
-READ_PROBES = ["read", "shape", "rowint", "elem", "rowslice", "colslice", "colrev", "ufunc", "rowsum", "iter", "tolist", "nonzero"]
+READ_PROBES = ["read", "shape", "rowint", "elem", "rowslice", "colslice", "colrev", "ufunc", "rowsum", "iter", "tolist", "nonzero",
+               "colsum", "colcounts", "padded", "padded_left", "unique", "cumsum", "concat", "where", "rslice", "any", "max"]
 WRITE_PROBES = ["set_row", "set_col", "set_all"]
 
 
@@ -89,6 +90,9 @@ def probe(d, kind, P):
     """apply a probe to d; returns something obs_any understands (for write probes: d itself after the write)"""
     n = len(d)
     B = P.B
+    if kind in ("padded", "padded_left", "colsum", "colcounts", "max"):
+        if d.size == 0 or (kind == "max" and len(d) and int(np.min(d.lengths)) == 0):
+            return ("precondition not met",)        # these need a non-empty row (C08/C09) / non-empty rows (C05 max)
     if kind == "read":
         return d
     if kind == "shape":
@@ -113,6 +117,29 @@ def probe(d, kind, P):
         return tuple(tuple(common.pyval(c) for c in r) for r in d.tolist())
     if kind == "nonzero":
         return np.nonzero(d)
+    if kind == "colsum":
+        return d.sum(axis=0)
+    if kind == "colcounts":
+        return d.col_counts()
+    if kind == "padded":
+        return d.as_padded_matrix(fill_value=-7, side="right")
+    if kind == "padded_left":
+        return d.as_padded_matrix(fill_value=-7, side="left")
+    if kind == "unique":
+        return np.unique(d, axis=-1)
+    if kind == "cumsum":
+        return np.cumsum(d, axis=-1)
+    if kind == "concat":
+        return np.concatenate([d, d])
+    if kind == "where":
+        return np.where(d > 0, d, 0)
+    if kind == "rslice":
+        from npstructures import ragged_slice
+        return ragged_slice(d, None, np.full(len(d), 1))
+    if kind == "any":
+        return (d != 0).any(axis=-1)
+    if kind == "max":
+        return d.max(axis=-1)
     if kind == "set_row":
         d[pyint(P.int("qi", -B - 1, B + 1))] = pyint(P.int("qv", -50, 50))
         return d
